@@ -299,6 +299,66 @@ def r11_4(prog, tab):
             else:
                 r.bad(f, key, "%s can run for one member before %s has been applied to all members (same loop, or no dominating "
                               "loop): %s" % (row["after"], row["before"], row["reason"]), ae["line"])
+    # barriers across modules: in the driver, the call that (transitively) runs `after` sits behind a completed loop over all
+    # modules that (transitively) runs `before`, and does not itself run `before` for its own module only
+    cg = prog.callgraph()
+
+    def reaches(site_event, caller, name):
+        """does this call site run `name`?  Direct callees and the functions handed over as arguments are followed; a call through
+        a function-pointer *parameter* (asn1f_recurse_expr's callback) is not expanded to every callback ever passed to it --
+        only the ones passed along this chain count"""
+        tgt = prog.func(name)
+        if tgt is None:
+            raise AnalysisBroken("pass %s not found" % name)
+        seen, st = set(), []
+
+        def targets_of(e, g):
+            out = []
+            if "callee" in e:
+                c = prog.resolve_direct(e["callee"], g)
+                if c is not None:
+                    out.append(c)
+            for a in e.get("args", []):
+                for n in walk(a.get("tree")):
+                    if n[0] == "fn":
+                        c = prog.func(n[1])
+                        if c is not None:
+                            out.append(c)
+            return out
+        st.extend(targets_of(site_event, caller))
+        while st:
+            g = st.pop()
+            if g.key in seen:
+                continue
+            seen.add(g.key)
+            if g.key == tgt.key:
+                return True
+            for b_, i_, x in g.calls():
+                st.extend(targets_of(x, g))
+        return False
+    for row in tab.get("module_barriers", []):
+        f = prog.func(row["function"])
+        if f is None:
+            raise AnalysisBroken("%s not found" % row["function"])
+        loops = f.loops()
+        dom = f.dominators()
+        sites = [(b, i, e, None) for b, i, e in f.calls()]
+        afters = [(b, i, e, tg) for b, i, e, tg in sites if reaches(e, f, row["after"])]
+        befores = [(b, i, e, tg) for b, i, e, tg in sites if reaches(e, f, row["before"])]
+        if not afters or not befores:
+            raise AnalysisBroken("%s: no call reaching %s / %s" % (row["function"], row["before"], row["after"]))
+        for ab, ai, ae, atg in afters:
+            key = "%s<<%s via %s" % (row["before"], row["after"], ae.get("callee") or "indirect")
+            good = False
+            for bb, bi, be, btg in befores:
+                for h, body in loops:
+                    if bb.id in body and ab.id not in body and h in dom.get(ab.id, ()):
+                        good = True
+            if good:
+                r.ok(f, key, "a loop over all modules running %s is complete before %s can run for any module" % (row["before"], row["after"]), ae["line"])
+            else:
+                r.bad(f, key, "%s runs for one module (through %s) before %s has run for all modules: %s" % (
+                    row["after"], ae.get("callee") or "an indirect call", row["before"], row["reason"]), ae["line"])
     # in-function sequences: after `first` ran, `then` runs on every path to a return
     from .c15 import must_pass
     for row in tab.get("pass_sequences", []):
